@@ -280,6 +280,7 @@ class Check:
         self.samples = []
         self.violations = []
         self.known_hits = []
+        self.ext_rejections = []
         self.notes = []
         self.extra = {}
         self.assumptions = []
@@ -305,6 +306,19 @@ class Check:
             json.dump(replay_obj, f, indent=1, default=str)
         self.violations.append((what, path))
 
+    def extension(self, what, replay_obj):
+        """a rejection in a part of the specification that lies beyond the listed property: recorded
+        and printed, never a VIOLATION of the property (whose statement does not cover that behaviour)"""
+        d = os.path.join(ROOT, "replays", self.pid)
+        os.makedirs(d, exist_ok=True)
+        h = hashlib.sha1(json.dumps(replay_obj, sort_keys=True, default=str).encode()).hexdigest()[:12]
+        path = os.path.join(d, "ext-%s.json" % h)
+        replay_obj = dict(replay_obj)
+        replay_obj.update({"extension_of": self.pid, "seed": self.seed, "tier": self.tier, "what": what})
+        with open(path, "w") as f:
+            json.dump(replay_obj, f, indent=1, default=str)
+        self.ext_rejections.append((what, path))
+
     def known(self, what):
         if what not in self.known_hits:
             self.known_hits.append(what)
@@ -324,6 +338,8 @@ class Check:
             "known_findings_met": self.known_hits,
             "notes": self.notes,
         }
+        if self.ext_rejections:
+            cov["specification_extension_rejections"] = [{"what": w, "replay": pth} for w, pth in self.ext_rejections]
         cov.update(self.extra)
         ev = {
             "property_id": self.pid,
@@ -340,6 +356,9 @@ class Check:
             json.dump(ev, f, indent=1)
         for k in self.known_hits:
             log("KNOWN-FINDING: property=%s %s" % (self.pid, k))
+        for what, path in self.ext_rejections:
+            log("SPEC-EXTENSION-REJECTED (behaviour beyond %s as stated; not counted against it) replay=%s" % (self.pid, path))
+            log("  " + what)
         for what, path in self.violations:
             log("VIOLATION property=%s replay=%s" % (self.pid, path))
             log("  " + what)
@@ -379,13 +398,15 @@ def drop_range(path, a, b, out):
 
 
 def validate_with_retries(chk, name, module, trace_path, side_path, constants=None, max_reports=3, describe=None,
-                          known_filter=None, timeout=3600, drop_runs=False, block=(("begin",), ("begin", "msg"))):
+                          known_filter=None, timeout=3600, drop_runs=False, block=(("begin",), ("begin", "msg")),
+                          extension_evs=()):
     """Validate a trace; on rejection record the violation (with the side-car replay data of the
     rejected event), drop the event and continue so that the rest of the trace is checked too."""
     cur_trace, cur_side = trace_path, side_path
     total = sum(1 for _ in open(trace_path, errors="replace"))
     accepted_events = 0
     reports = 0
+    ext_reports = 0
     while True:
         ok, idx, r = validate_trace(chk.pid, name, module, cur_trace, constants=constants, timeout=timeout)
         if ok:
@@ -408,6 +429,13 @@ def validate_with_retries(chk, name, module, trace_path, side_path, constants=No
         kf = known_filter(ev) if known_filter else None
         if kf:
             chk.known(kf)
+        elif ev.get("ev") in extension_evs:
+            ext_reports += 1
+            chk.extension(what, {"event": trunc_json(ev), "replay_data": trunc_json(side), "trace_spec": module,
+                                 "event_index": idx})
+            if ext_reports >= 2 * max_reports:
+                chk.notes.append("stopped validating %s after %d rejected extension events" % (os.path.basename(trace_path), ext_reports))
+                break
         else:
             reports += 1
             chk.violation(what, {"event": trunc_json(ev), "replay_data": trunc_json(side), "trace_spec": module,
@@ -455,6 +483,17 @@ def build_ipputil(timeout=1800):
         sys.stderr.write(p.stdout[-4000:])
         raise ToolError("building ipputil from /repo failed")
     return os.path.join(tdir, "release", "ipputil")
+
+
+def build_examples(timeout=1800):
+    """build the example programs of /repo's working tree; returns the directory of the binaries"""
+    tdir = os.path.join(HARNESS, "target", "repo")
+    p = subprocess.run(["cargo", "build", "--offline", "--release", "-p", "ipp-examples", "--manifest-path", "/repo/Cargo.toml",
+                        "--target-dir", tdir], stdout=subprocess.PIPE, stderr=subprocess.STDOUT, text=True, timeout=timeout)
+    if p.returncode != 0:
+        sys.stderr.write(p.stdout[-4000:])
+        raise ToolError("building the examples from /repo failed")
+    return os.path.join(tdir, "release")
 
 
 def apalache_check(pid, label, module_dir, module, args, timeout=900):
